@@ -260,7 +260,7 @@ StepExpr(f, en) ==
     [] e.k = "mcall" ->
          IF st = "NE" THEN Res(PushE(PushItems(PushE(f, "ES", e, u), e.args, 1), "NE", e.recv, TRUE))
          ELSE LET p == PopN(f, Len(e.args)) IN
-              LET r == MethodCall(e, TopV(p.f), p.vs, DummySt) IN
+              LET r == MethodCall(prog, e, TopV(p.f), p.vs, DummySt) IN
               IF r.c # "ok" THEN ResErr(f, r.ek, e.line) ELSE Res(PushVIf(PopV(p.f), u, r.v))
     [] e.k = "show" ->
          IF st = "NE" THEN Res(PushE(PushE(f, "ES", e, u), "NE", e.e, TRUE))
